@@ -38,6 +38,8 @@ REPORTED = {
                              "(`main` + 5 digits -> 4 digits; f called 13 times -> `f 1`)",
     "chrome-name-overflow": "dump --chrome escapes a function name into name_buf[2048] without a bound: a name whose "
                             "escaped form needs >= 2048 bytes overruns the stack (SIGSEGV / ASan stack-buffer-overflow)",
+    "chrome-no-event-comma": "dump --chrome ends every metadata event with a comma: when the filters leave no function "
+                             "event the traceEvents array has a trailing comma (invalid JSON)",
     "chrome-comm-escape": "dump --chrome prints task->comm raw in the process_name/thread_name events: a double "
                           "quote or backslash in the executable's file name gives invalid JSON",
 }
@@ -121,7 +123,7 @@ def gen_case(rng, pool, big=False, avoid_trunc=True):
     maxd = rng.choice([1, 2, 3, 5, 8])
     steps = [0, 1, 1, 2, 7, 50, 100, 999, 1000, 1001, 12345] + ([10**6 + 1, 10**9 + 5] if rng.random() < 0.2 else [])
     last_tid = None
-    recursion = rng.random() < 0.3
+    recursion = rng.random() < 0.4
     while budget > 0:
         tid = rng.choice(tasks)[0]
         st = stacks[tid]
@@ -132,7 +134,10 @@ def gen_case(rng, pool, big=False, avoid_trunc=True):
         if st and (len(st) >= maxd or rng.random() < 0.45):
             recs.append((tid, False, st.pop(), clock))
         else:
-            k = st[-1] if (st and recursion and rng.random() < 0.5) else rng.randrange(nsym)
+            if st and recursion and rng.random() < 0.5:
+                k = st[-1] if rng.random() < 0.5 else rng.choice(st)      # direct / mutual recursion
+            else:
+                k = rng.randrange(nsym)
             st.append(k)
             recs.append((tid, True, k, clock))
             budget -= 1
@@ -309,6 +314,20 @@ def parse_graph(out):
     return [(r["depth"], r["name"], r["calls"], r["time"]) for r in rows]
 
 
+def graph_section(out):
+    """the raw lines between the column header and the closing empty line ([] when there is no such section)"""
+    lines = out.split(b"\n")
+    for k, l in enumerate(lines):
+        if l.startswith(b"# TOTAL TIME"):
+            res = []
+            for x in lines[k + 1:]:
+                if x == b"":
+                    return res
+                res.append(x)
+            return res
+    return []
+
+
 def parse_flame(out):
     return [l for l in out.split(b"\n") if l != b""]
 
@@ -435,7 +454,7 @@ def ccase(c, p):
 
 PRE = """From Coq Require Import NArith List Bool Uint63.
 Import ListNotations.
-Require Import UV.C15.Model UV.C15.Lit.
+Require Import UV.C15.Model UV.C15.Doc UV.C15.GraphF UV.C15.GraphText UV.C15.BackTrace UV.C15.Lit.
 Local Open Scope uint63_scope.
 """
 KINDS = ["graph", "flame0", "flameS", "dot", "mermaid", "chrome"]
@@ -449,10 +468,78 @@ def evaluate_cases(ctx, cases, parsed, name="cases", flame_fixed=False):
         arg = (" true" if flame_fixed else " false") if k.startswith("flame") else ""
         evals.append(("mismatch_" + k, "bad_indices (agree_%s%s) cases 0" % (k, arg)))
         evals.append(("violation_" + k, "bad_indices okc_%s cases 0" % k))
+    docs = [(i, dd) for i, p in enumerate(parsed) for dd in p.get("docs", [])]
+    # the documents are the bulk of the literals: at most ~2.5 MB of them go to Coq (python's json judged them all)
+    budget = 1500000
+    kept = []
+    for i, dd in docs:
+        if len(dd["raw"]) <= budget:
+            kept.append((i, dd))
+            budget -= len(dd["raw"])
+    ctx.extra["chrome_documents_not_sent_to_coq"] = len(docs) - len(kept)
+    docs = kept
+    defs += "Definition docs : list dcase := [\n%s\n].\n" % ";\n".join(
+        "mk_dcase (nth %d%%nat cases (mk_case [] [] [] [] 0%%N [] [] [] [] [] [] true [] [])) [%s] %s %s %s %s %s" % (
+            i, "; ".join("cm %d %s" % (t, cb(cmm)) for t, cmm in dd["comms"]), cb(dd["version"]), cb(dd["date"]),
+            "None" if dd["cmdline"] is None else "(Some %s)" % cb(dd["cmdline"]),
+            "true" if dd["noev"] else "false", cb(dd["raw"])) for i, dd in docs)
+    fcs = [(i, p["graphf"]) for i, p in enumerate(parsed) if p.get("graphf") is not None]
+    defs += "Definition fcases : list fcase := [\n%s\n].\n" % ";\n".join(
+        "mk_fcase (nth %d%%nat cases (mk_case [] [] [] [] 0%%N [] [] [] [] [] [] true [] [])) %s %s" % (
+            i, cb(func), "None" if rows is None else "(Some [%s])" % "; ".join(crow(r) for r in rows))
+        for i, (func, rows) in fcs)
+    evals.append(("mismatch_graphf", "bad_indices agree_graphf fcases 0"))
+    evals.append(("violation_graphf", "bad_indices okc_graphf fcases 0"))
+    bcs = [(i, p["bts"]) for i, p in enumerate(parsed) if p.get("bts") is not None]
+    defs += "Definition bcases : list bcase := [\n%s\n].\n" % ";\n".join(
+        "mk_bcase (nth %d%%nat cases (mk_case [] [] [] [] 0%%N [] [] [] [] [] [] true [] [])) %s [%s]" % (
+            i, cb(func), "; ".join("bt_ [%s] %d %s" % (";".join("%d" % x for x in key), hit,
+                                                       "None" if tm is None else "(Some (n_ %d, n_ %d, n_ %d))" % tm)
+                                   for key, hit, tm in blocks)) for i, (func, blocks) in bcs)
+    evals.append(("mismatch_bt", "bad_indices agree_bt bcases 0"))
+    evals.append(("violation_bt", "bad_indices okc_bt bcases 0"))
+    tcs = [(i, tx) for i, p in enumerate(parsed) for tx in p.get("texts", [])]
+    defs += "Definition tcases : list tcase := [\n%s\n].\n" % ";\n".join(
+        "mk_tcase (nth %d%%nat cases (mk_case [] [] [] [] 0%%N [] [] [] [] [] [] true [] [])) %s %s" % (
+            i, "None" if func is None else "(Some %s)" % cb(func), clines(lines)) for i, (func, lines) in tcs)
+    evals.append(("mismatch_text", "bad_indices agree_text tcases 0"))
+    # the validator itself against python's json on damaged documents (single-byte edits of real outputs)
+    muts = []
+    mrng = __import__("random").Random(ctx.subseed("muts"))
+    small = sorted((dd["raw"] for _, dd in docs), key=len)[:12]
+    for raw in small:
+        for _ in range(ctx.n(12, 60)):
+            b = bytearray(raw)
+            pos = mrng.randrange(len(b))
+            k = mrng.randrange(4)
+            if k == 0:
+                del b[pos]
+            elif k == 1:
+                b.insert(pos, mrng.choice(b'",:{}[]\\ 0.-e\n\tx\x00\x80'))
+            elif k == 2:
+                b[pos] = mrng.choice(b'",:{}[]\\ 0.-eE+\n1tfn\x1f\xc3')
+            else:
+                j = mrng.randrange(len(b))
+                b[pos], b[j] = b[j], b[pos]
+            muts.append(bytes(b))
+    defs += "Definition muts : list (list N) := [\n%s\n].\n" % ";\n".join(cb(m) for m in muts)
+    evals.append(("invalid_muts", "bad_indices json_ok muts 0"))
+    evals.append(("mismatch_doc", "bad_indices agree_doc docs 0"))
+    evals.append(("violation_doc", "bad_indices okc_doc docs 0"))
     res = coq.run_cases(ctx, name, PRE, defs, evals)
     if res is None:
         return None
-    return {k: coq.parse_nat_list(v) for k, v in res.items()}
+    res = {k: coq.parse_nat_list(v) for k, v in res.items()}
+    res["muts"] = muts
+    res["bt_owner"] = [i for i, _ in bcs]
+    res["bt_list"] = [b for _, b in bcs]
+    res["text_owner"] = [i for i, _ in tcs]
+    res["text_list"] = [t for _, t in tcs]
+    res["graphf_owner"] = [i for i, _ in fcs]
+    res["graphf_list"] = [f for _, f in fcs]
+    res["doc_owner"] = [i for i, _ in docs]
+    res["doc_list"] = [dd for _, dd in docs]
+    return res
 
 
 def case_json(c, p=None):
@@ -476,6 +563,19 @@ def case_from_json(j):
             "strs": {int(i): bytes.fromhex(v) for i, v in (j.get("strs") or {}).items()}}
 
 
+VERDATE = re.compile(rb'"version":"uftrace ([^\n]*)",\n"recorded_time":"([^\n"]*)"')
+
+
+def doc_inputs(c, raw, cmdline, with_cmdline, noev=False):
+    """what the whole-document model needs besides the case: comm per tid, version/date as printed"""
+    m = VERDATE.search(raw)
+    if not m:
+        raise ParseError("no version/recorded_time in the chrome output")
+    comm = os.path.basename(c["exe"]).encode()[:15]
+    return {"comms": [(t[0], comm) for t in c["tasks"]], "version": m.group(1), "date": m.group(2),
+            "cmdline": cmdline if with_cmdline else None, "noev": noev, "raw": raw}
+
+
 def run_case(objdir, c, d, cmdline=b"prog arg", with_cmdline=True):
     write_dir(c, d, cmdline=cmdline, with_cmdline=with_cmdline)
     o = run_outputs(objdir, d, c["sample"])
@@ -483,7 +583,103 @@ def run_case(objdir, c, d, cmdline=b"prog arg", with_cmdline=True):
     p = {"graph": parse_graph(o["graph"]), "flame0": parse_flame(o["flame0"]), "flameS": parse_flame(o["flameS"]),
          "dot": parse_dot(o["dot"]), "mermaid": parse_mermaid(o["mermaid"]), "chrome": evs, "json_ok": ok,
          "meta": meta, "doc": doc, "raw_chrome": o["chrome"]}
+    p["texts"] = [(None, graph_section(o["graph"]))]
+    p["docs"] = [doc_inputs(c, o["chrome"], cmdline, with_cmdline)]
     return p
+
+
+def func_shape(c, func):
+    """how FUNC occurs in the trace: tags for the boundaries of `graph FUNC` (tg->enabled)"""
+    tags = set()
+    stacks, outer = {}, {}
+    for tid, ent, k, tm in c["recs"]:
+        st = stacks.setdefault(tid, [])
+        if ent:
+            if c["syms"][k] == func:
+                inside = [c["syms"][x] for x in st]
+                if func in inside:
+                    tags.add("nested")
+                    tags.add("direct-recursion" if inside[-1] == func else "mutual-recursion")
+                else:
+                    outer[tid] = outer.get(tid, 0) + 1
+            st.append(k)
+        elif st:
+            st.pop()
+    if any(v >= 2 for v in outer.values()):
+        tags.add("entered-again-after-return")
+    if len(outer) >= 2:
+        tags.add("in-several-tasks")
+    if any(c["syms"][x] == func for st in stacks.values() for x in st):
+        tags.add("open-at-the-end")
+    return tags
+
+
+BT_HEAD = re.compile(rb" backtrace #(\d+): hit (\d+), time (.{10})$")
+BT_FRAME = re.compile(rb"   \[(\d+)\] (.*) \(0x([0-9a-f]+)\)$", re.S)
+
+
+def parse_backtraces(out):
+    """the BACKTRACE section of `graph FUNC` -> [(symbol indices outermost first, hit, time field)] in print order"""
+    lines = out.split(b"\n")
+    res = []
+    cur = None
+    inside = False
+    for l in lines:
+        if l.startswith(b"=============== BACKTRACE"):
+            inside = True
+            continue
+        if l.startswith(b"========== FUNCTION CALL GRAPH"):
+            break
+        if not inside:
+            continue
+        m = BT_HEAD.match(l)
+        if m:
+            if int(m.group(1)) != len(res):
+                raise ParseError("backtrace numbering %r" % l)
+            cur = ([], int(m.group(2)), parse_time_field(m.group(3)))
+            res.append(cur)
+            continue
+        m = BT_FRAME.match(l)
+        if m:
+            if cur is None or int(m.group(1)) != len(cur[0]):
+                raise ParseError("backtrace frame %r" % l)
+            off = int(m.group(3), 16) - BASE - 0x1000
+            if off % 0x100 or off < 0:
+                raise ParseError("backtrace address %r" % l)
+            cur[0].append(off // 0x100)
+        elif l != b"":
+            raise ParseError("backtrace line %r" % l)
+    return res
+
+
+def run_graphf(objdir, c, d, rng, func=None):
+    """`uftrace graph FUNC` on the directory written by run_case -> (func, rows | None)"""
+    cands = [n for n in set(c["syms"]) if not n.startswith(b"-")]
+    if func is None:
+        nested = sorted(n for n in cands if "nested" in func_shape(c, n))
+        if nested and rng.random() < 0.6:
+            func = rng.choice(nested)                  # a root function that is entered again while it runs
+        else:
+            func = rng.choice(sorted(cands)) if (cands and rng.random() < 0.9) else b"no_such_function"
+    rc, out, err = uft(objdir, ["graph", "--no-pager", "-d", d, func])
+    if rc != 0:
+        raise ParseError("uftrace graph FUNC exited with %d: %r" % (rc, err[-300:]))
+    if b"cannot find graph" in out:
+        return func, None, out
+    if b"# TOTAL TIME" not in out:
+        if b"BACKTRACE" not in out:
+            raise ParseError("graph FUNC printed neither a graph nor a backtrace: %r" % out[:200])
+        return func, [], out
+    return func, parse_graph(out), out
+
+
+def run_noev(objdir, c, d, rng, cmdline=b"prog arg", with_cmdline=True):
+    """the same directory with a filter that leaves no function record (d must have been written by run_case)"""
+    opt = ["-r", "~0.000000001"]          # a time range that ends before the first record
+    rc, out, err = uft(objdir, ["dump", "--chrome", "--no-pager", "-d", d] + opt)
+    if rc != 0:
+        raise ParseError("uftrace dump --chrome %s exited with %d" % (" ".join(opt), rc))
+    return doc_inputs(c, out, cmdline, with_cmdline, noev=True)
 
 
 # ---------------------------------------------------------------------------------------------
@@ -714,6 +910,13 @@ def witnesses(ctx, objdir, hexe):
     repro["chrome-name-overflow"] = rc != 0 or not parse_chrome(out)[0]
     report_defect(ctx, "chrome-name-overflow", repro["chrome-name-overflow"],
                   {"kind": "witness", "long_name": 3000, "exit_status": rc})
+    # 6. a filter that leaves no function event
+    write_dir(base, d)
+    rc, out, err = uft(objdir, ["dump", "--chrome", "--no-pager", "-d", d, "-r", "~0.000000001"])
+    ctx.case(key=("wit", "noevent"), tags=["witness:no-event"])
+    repro["chrome-no-event-comma"] = rc != 0 or not parse_chrome(out)[0]
+    report_defect(ctx, "chrome-no-event-comma", repro["chrome-no-event-comma"],
+                  {"kind": "witness", "option": "-r ~0.000000001"})
     # sanity: the plain directory is valid JSON
     ok, out = chrome_ok()
     if not ok:
@@ -786,7 +989,90 @@ def verdict(ctx, cases, parsed, res, flame_fixed=False):
                               {"kind": "dir", "output": k, "correspondence": "C15.Model vs uftrace " + k,
                                "case": case_json(cases[i], parsed[i])}, False)
                 break
-    ctx.extra["disagreements_checked"] = sum(len(res["mismatch_" + k]) for k in KINDS)
+    # `uftrace graph FUNC`
+    for j in res.get("violation_graphf", [])[:2]:
+        anyviol = True
+        i = res["graphf_owner"][j]
+        ctx.violation("C15 violated: `uftrace graph FUNC` does not give the counts and times of the calls below FUNC",
+                      {"kind": "dir", "output": "graphf", "func": res["graphf_list"][j][0].hex(),
+                       "case": case_json(cases[i], parsed[i])}, True)
+    if not anyviol and res.get("mismatch_graphf"):
+        j = res["mismatch_graphf"][0]
+        i = res["graphf_owner"][j]
+        ctx.violation("model and implementation disagree on `uftrace graph FUNC` (%d cases); the property checker accepts "
+                      "every explored output" % len(res["mismatch_graphf"]),
+                      {"kind": "dir", "output": "graphf", "func": res["graphf_list"][j][0].hex(),
+                       "case": case_json(cases[i], parsed[i])}, False)
+        anyviol = True
+    ctx.extra["graph_func_cases"] = len(res.get("graphf_list", []))
+    # the BACKTRACE section of graph FUNC
+    for j in res.get("violation_bt", [])[:2]:
+        anyviol = True
+        i = res["bt_owner"][j]
+        ctx.violation("C15 violated: the BACKTRACE section of `uftrace graph FUNC` does not give the hits and times of the "
+                      "call stacks leading to FUNC", {"kind": "dir", "output": "backtrace", "func": res["bt_list"][j][0].hex(),
+                                                      "case": case_json(cases[i], parsed[i])}, True)
+    if not anyviol and res.get("mismatch_bt"):
+        j = res["mismatch_bt"][0]
+        i = res["bt_owner"][j]
+        ctx.violation("model and implementation disagree on the BACKTRACE section of `uftrace graph FUNC` (%d cases); the "
+                      "checker accepts every explored output" % len(res["mismatch_bt"]),
+                      {"kind": "dir", "output": "backtrace", "func": res["bt_list"][j][0].hex(),
+                       "case": case_json(cases[i], parsed[i])}, False)
+        anyviol = True
+    ctx.extra["backtrace_sections_checked"] = len(res.get("bt_list", []))
+    # the raw text of the FUNCTION CALL GRAPH section (model of print_graph_node / pr_indent / print_time_unit)
+    if not anyviol and res.get("mismatch_text"):
+        j = res["mismatch_text"][0]
+        i = res["text_owner"][j]
+        func = res["text_list"][j][0]
+        ctx.violation("model and implementation disagree on the text of the call graph section (%d outputs); the "
+                      "row checkers accept every explored output" % len(res["mismatch_text"]),
+                      {"kind": "dir", "output": "graph-text", "func": None if func is None else func.hex(),
+                       "lines": [l.decode("latin-1") for l in res["text_list"][j][1]],
+                       "case": case_json(cases[i], parsed[i])}, False)
+        anyviol = True
+    ctx.extra["graph_sections_compared_bytewise"] = len(res.get("text_list", []))
+    # the whole --chrome document: Coq's JSON validator on the implementation's bytes, cross-checked with python's
+    for j in res.get("violation_doc", [])[:2]:
+        anyviol = True
+        i = res["doc_owner"][j]
+        ctx.violation("C15 violated: the text written by dump --chrome is not a JSON document",
+                      {"kind": "dir", "output": "doc", "noev": res["doc_list"][j]["noev"],
+                       "case": case_json(cases[i], parsed[i])}, True)
+    for j, dd in enumerate(res.get("doc_list", [])):
+        py = parse_chrome(dd["raw"])[0]
+        if py != (j not in res["violation_doc"]):
+            ctx.broken("the Coq JSON validator and python's json disagree on an implementation output (doc %d: coq=%s python=%s)"
+                       % (j, j not in res["violation_doc"], py))
+            break
+    def py_json_ok(b):
+        def bad(x):
+            raise ValueError(x)
+        try:
+            json.loads(b.decode("utf-8"), parse_constant=bad)
+            return True
+        except (ValueError, UnicodeDecodeError, RecursionError):
+            return False
+    nbad = 0
+    for j, mb in enumerate(res.get("muts", [])):
+        py = py_json_ok(mb)
+        nbad += not py
+        if py != (j not in res["invalid_muts"]):
+            ctx.broken("the Coq JSON validator and python's json disagree on a damaged document (coq=%s python=%s): %r"
+                       % (j not in res["invalid_muts"], py, mb[:2000]))
+            break
+    ctx.extra["validator_cross_checked_on_damaged_documents"] = len(res.get("muts", []))
+    ctx.extra["of_which_invalid"] = nbad
+    if not anyviol and res.get("mismatch_doc"):
+        j = res["mismatch_doc"][0]
+        i = res["doc_owner"][j]
+        ctx.violation("model and implementation disagree on the text of dump --chrome (%d documents); the JSON validator "
+                      "accepts every explored output" % len(res["mismatch_doc"]),
+                      {"kind": "dir", "output": "doc", "noev": res["doc_list"][j]["noev"],
+                       "case": case_json(cases[i], parsed[i])}, False)
+    ctx.extra["chrome_documents_compared_bytewise"] = len(res.get("doc_list", []))
+    ctx.extra["disagreements_checked"] = sum(len(res["mismatch_" + k]) for k in KINDS) + len(res.get("mismatch_doc", []))
 
 
 def tags_of(c):
@@ -862,8 +1148,30 @@ def run(ctx):
         {"tasks": [(100, 100, None)], "syms": [b"a", b"a"], "sample": 3, "exe": "prog",
          "recs": [(100, True, 0, 1000), (100, True, 1, 1000), (100, False, 1, 1000), (100, False, 0, 1000)]},
         flame_witness_case(),
+        # C15_flame_total_bound_refuted replayed on the implementation: 1.2 us of run time shown as 2 samples of 1 us
+        {"tasks": [(100, 100, None)], "syms": [b"m", b"f"], "sample": 1000, "exe": "prog",
+         "recs": [(100, True, 0, 1000), (100, True, 1, 1000), (100, False, 1, 1600), (100, True, 1, 1600),
+                  (100, False, 1, 2200), (100, False, 0, 2200)]},
     ]
-    n = ctx.n(150, 2500)
+    # `graph FUNC` with a root function that is entered again while it runs (start_graph must only count and reset
+    # on the OUTERMOST entry): direct recursion, mutual recursion, FUNC again after it returned, FUNC in two tasks
+    def seq(tid, spec, t0):
+        out, t = [], t0
+        for ent, k in spec:
+            t += 37
+            out.append((tid, ent, k, t))
+        return out
+    E, X = True, False
+    fixed += [
+        {"tasks": [(100, 100, None)], "syms": [b"main", b"f", b"g"], "sample": 5, "exe": "prog", "func": b"f",
+         "recs": seq(100, [(E, 0), (E, 1), (E, 1), (E, 1), (E, 2), (X, 2), (X, 1), (E, 2), (X, 2), (X, 1), (X, 1), (E, 1), (X, 1), (X, 0)], 1000)},
+        {"tasks": [(100, 100, None)], "syms": [b"main", b"a", b"b"], "sample": 5, "exe": "prog", "func": b"a",
+         "recs": seq(100, [(E, 0), (E, 1), (E, 2), (E, 1), (E, 2), (X, 2), (X, 1), (E, 1), (X, 1), (X, 2), (X, 1), (E, 2), (E, 1), (X, 1), (X, 2), (X, 0)], 1000)},
+        {"tasks": [(100, 100, None), (101, 100, None)], "syms": [b"main", b"f", b"g"], "sample": 5, "exe": "prog", "func": b"f",
+         "recs": seq(100, [(E, 0), (E, 1), (E, 2)], 1000) + seq(101, [(E, 1), (E, 1), (E, 2), (X, 2)], 2000)
+                 + seq(100, [(X, 2), (E, 1), (X, 1), (X, 1), (X, 0)], 3000) + seq(101, [(X, 1), (E, 2), (E, 1)], 4000)},
+    ]
+    n = ctx.n(150, 1200)
     d = os.path.join(ctx.scratch, "dir")
     i = -1
     while True:
@@ -890,6 +1198,25 @@ def run(ctx):
             ctx.violation("an export of a well-formed trace could not be parsed back: %s" % e,
                           {"kind": "dir", "case": case_json(c)}, True)
             continue
+        if i % 3 != 2 or c.get("func"):
+            try:
+                gf = run_graphf(objdir, c, d, ctx.rng, c.get("func"))
+                p["graphf"] = gf[:2]
+                p["texts"].append((gf[0], graph_section(gf[2])))
+                p["bts"] = (gf[0], parse_backtraces(gf[2]))
+                extra_tags.append("graph-func:" + ("not-called" if p["graphf"][1] is None else
+                                                   "zero-time-leaf" if p["graphf"][1] == [] else "called"))
+                extra_tags += ["graph-func:" + t for t in sorted(func_shape(c, gf[0]))]
+            except ParseError as e:
+                ctx.violation("`uftrace graph FUNC` output could not be parsed back: %s" % e,
+                              {"kind": "dir", "case": case_json(c)}, True)
+        if i % 4 == 0:
+            try:
+                p["docs"].append(run_noev(objdir, c, d, ctx.rng, **kw))
+                extra_tags.append("chrome:no-event-left")
+            except ParseError as e:
+                ctx.violation("dump --chrome with a filter that leaves no record failed: %s" % e,
+                              {"kind": "dir", "case": case_json(c)}, True)
         cases.append(c)
         parsed.append(p)
         ctx.case(key=("dir", tuple(c["syms"]), tuple(c["recs"])), nontrivial=len(c["recs"]) >= 2,
@@ -898,6 +1225,26 @@ def run(ctx):
     seen = set()
     for c in cases:
         seen.update(b"".join(c["syms"]))
+    missing = [b for b in range(256) if b not in FORBIDDEN_NAME_BYTES and b not in seen]
+    if missing:      # a name of the sweep was overwritten by a duplicate: one more case with the bytes not seen yet
+        syms = [b"s" + bytes(missing[k:k + 6]) for k in range(0, len(missing), 6)]
+        recs, t = [], 1000
+        for k in range(len(syms)):
+            recs.append((100, True, k, t))
+            t += 11
+        for k in reversed(range(len(syms))):
+            recs.append((100, False, k, t))
+            t += 13
+        c = {"tasks": [(100, 100, None)], "syms": syms, "recs": recs, "sample": 7, "exe": "prog"}
+        try:
+            p = run_case(objdir, c, d)
+            cases.append(c)
+            parsed.append(p)
+            ctx.case(key=("dir", tuple(c["syms"]), tuple(c["recs"])), tags=tags_of(c) + ["name:remaining-bytes"], size=len(recs))
+            seen.update(b"".join(syms))
+        except ParseError as e:
+            ctx.violation("an export of a well-formed trace could not be parsed back: %s" % e,
+                          {"kind": "dir", "case": case_json(c)}, True)
     ctx.extra["name_byte_values_covered"] = len(seen)
     res = evaluate_cases(ctx, cases, parsed, flame_fixed=flame_fixed)
     verdict(ctx, cases, parsed, res, flame_fixed)
@@ -911,6 +1258,11 @@ def replay(ctx, obj):
         c = case_from_json(obj["case"])
         flame_fixed = not witnesses(ctx, objdir, hexe)["flame-count-truncated"]
         p = run_case(objdir, c, os.path.join(ctx.scratch, "dir"))
+        if obj.get("func") is not None:
+            gf = run_graphf(objdir, c, os.path.join(ctx.scratch, "dir"), ctx.rng, bytes.fromhex(obj["func"]))
+            p["graphf"] = gf[:2]
+            p["texts"].append((gf[0], graph_section(gf[2])))
+            p["bts"] = (gf[0], parse_backtraces(gf[2]))
         ctx.case(key="replay", sample=case_json(c, p))
         res = evaluate_cases(ctx, [c], [p], flame_fixed=flame_fixed)
         ctx.log("replayed directory case:", res)
